@@ -52,6 +52,13 @@ Section Eval.
       + apply (Hdis y); [right; exact Hy | exact Hys].
   Qed.
 
+  Lemma has_dup_s_nodup l : NoDup l -> has_dup_s l = false.
+  Proof.
+    induction l as [|x xs IH]; intros Hnd; [reflexivity|]. inversion Hnd as [|? ? Hnx Hnd']; subst. cbn [has_dup_s].
+    rewrite (IH Hnd'), orb_false_r. destruct (str_in x xs) eqn:E; [|reflexivity].
+    apply str_in_In in E. contradiction.
+  Qed.
+
   Lemma op_name_legal op : str_in (op_name op) LEGAL_NUMERIC_OPERATORS = true.
   Proof. destruct op; reflexivity. Qed.
 
@@ -62,6 +69,7 @@ Section Eval.
     cbn [render construct]. change (all_atoms (Atom n :: map Atom a)) with
       (match all_atoms (map Atom a) with Some t => Some (n :: t) | None => None end).
     rewrite all_atoms_map. cbn [construct_flat]. rewrite Hn, Hsig.
+    rewrite <- Hlen, Nat.eqb_refl, (has_dup_s_nodup _ Hnd). cbn [negb orb]. rewrite andb_false_r.
     destruct a as [|x xs].
     - destruct sig; [reflexivity | discriminate].
     - rewrite Hlen, firstn_all, dedup_keys_nodup; [reflexivity | exact Hnd | intros ? _ []].
